@@ -57,7 +57,10 @@ def specF64 (l : NumLit) (impl : String) : Option String :=
     let r := UInt64.ofNat n
     if !F64.isFinite r then some "nan-or-inf"
     else if F64.sign r != l.neg then some "wrong-sign"
-    else if 2 ^ 1024 * den ≤ num then some "accepted-above-2^1024: exact value >= 2^1024 but accepted"
+    else if (2 ^ 1024 + 2 ^ 972) * den ≤ num then
+      some "accepted-far-above-2^1024: exact value >= 2^1024 + 2 ulp(max) but accepted"
+    else if 2 ^ 1024 * den ≤ num then
+      some "accepted-above-2^1024:within-2ulp exact value in [2^1024, 2^1024 + 2^972) but accepted"
     else if inExactDomain l && roundNE64 l.neg num den != some r then
       some s!"not-correctly-rounded-in-exact-domain: roundNE64 gives {show64 (roundNE64 l.neg num den)}"
     else if !withinUlps 5 l.neg num den r then
